@@ -814,6 +814,14 @@ func ParseContracts(path, pkgName, src string) (*ContractFile, error) {
 			}
 		}
 	}
+	// one contract per callee and file: a second declaration would silently replace the first
+	seen := map[string]bool{}
+	for _, u := range cf.Units {
+		if seen[u.Name] {
+			return nil, fmt.Errorf("%s: %s is declared twice (unit / assumed / inline)", path, u.Name)
+		}
+		seen[u.Name] = true
+	}
 	return cf, nil
 }
 
